@@ -252,7 +252,13 @@ def run(prog, rep, tier='quick'):
         else:
             deg_ok = deq(en.deg['win'], 0)
             sz_ok = en.sz is not None and sp.simplify(en.sz - sp.Symbol('Nw', positive=True)) == 0
-            if deg_ok and sz_ok and en.shape == ():
+            absl = sorted(l_ for l_ in en.taint if isinstance(l_, str) and l_.startswith('ABS:'))
+            if absl:
+                an, aq = itp.abs_nodes[absl[0]]
+                rep.violation('window-object', aq or 'window.enbw', 'enbw: %s' % normalise(an)[:50], 'the equivalent noise bandwidth is built on a '
+                              'sum of moduli: N*sum(w^2)/sum(w)^2 needs the plain sum of the samples -- for windows with negative samples '
+                              '(flat-top, Lanczos) sum|w| > |sum w| and the reported ENBW is too small', loc('window', an))
+            elif deg_ok and sz_ok and en.shape == ():
                 rep.proved('window-object', 'window.Window', 'enbw', 'scalar, scale invariant, size signature N', where)
             else:
                 rep.violation('window-object', 'window.Window', 'enbw',
